@@ -251,6 +251,13 @@ func c05Docs(renderBound map[int]int, stop func() bool) (docs []c05Case, complet
 				}
 				G[0] = 0
 				docs = append(docs, c05Case{N: n, G: G, R: make([]int, k), Mal: m, MalAt: at})
+				if at != 0 {
+					// the same with NotBefore still ahead: the clock positions before it must not
+					// shield the other bounds from being looked at
+					G2 := append([]int(nil), G...)
+					G2[0] = 4
+					docs = append(docs, c05Case{N: n, G: G2, R: make([]int, k), Mal: m, MalAt: at})
+				}
 			}
 		}
 		G := make([]int, k)
